@@ -517,9 +517,24 @@ def temporal_order_rule(F, rep):
                 return mk_bool(o == "Equal")      # field-wise equality of two dates (`self == other`) coincides with compare() == Equal
             return None
         return hook
+    by_components = component_order_types(F, rep, rid)
+    # dates are one of the ordered kinds of the statement ("exactly one of a < b, a = b, a > b"): the order of two valid dates must not be partial
+    for name, h in sorted(F.hir.items()):
+        if re.match(r"^<dmntk_feel::temporal::((?:\w+::)*FeelDate) as core::cmp::PartialOrd>::partial_cmp$", name) and "FeelDate" not in by_components:
+            fl = hirflow.Flow(h)
+            nones = [line for d, cond, line in fl.returns if d is not None and d[0] == "ctor" and str(d[1]).endswith("Option::None")]
+            if nones:
+                rep.violation(rid, "total:FeelDate::partial_cmp", "FeelDate::partial_cmp can answer None (line %s) and does not order dates by their components: dates are valid with up to nine digits "
+                              "of the year, the calendar library the comparison goes through ends at the years -262144 / 262143, so for later dates none of <, =, > holds "
+                              "(date(\"262143-12-31\") < date(\"262144-01-01\") is false)" % nones[0], "%s:%s" % (h["file"], nones[0]))
+            else:
+                rep.ok(rid, "total:FeelDate::partial_cmp", "never answers None")
     for name, h in sorted(F.hir.items()):
         m = re.match(r"^<dmntk_feel::temporal::((?:\w+::)*(?:FeelDate|FeelTime|FeelDateTime)) as core::cmp::(PartialOrd|PartialEq)>::(partial_cmp|eq)$", name)
         if not m or (m.group(3) == "eq" and m.group(1).endswith("FeelDate")):
+            continue
+        if m.group(1).split("::")[-1] in by_components:
+            n += 4
             continue
         bad = []
         for o in OUT:
@@ -551,6 +566,8 @@ def temporal_order_rule(F, rep):
         nw += 1
         meth = m.group(2)
         owner = name.rsplit("::", 1)[0]
+        if m.group(1).split("::")[-1] in by_components:
+            continue          # judged by component_order_types (folded on concrete dates)
 
         def private_method(callee, owner=owner, name=name):
             """private methods of the same type are expanded at their call sites (a shared `relation(&self, other, helper)` that applies the helper it is given)"""
@@ -946,3 +963,98 @@ def list_polarity_rule(F, rep):
         else:
             rep.ok(rid, key, "%d folds, every one answers %s" % (cells, what))
     rep.floor(rid, "functions over test lists (positive, negated)", n, 2)
+
+
+DATES = [(2020, 1, 1), (2020, 1, 2), (2020, 2, 1), (2021, 1, 1), (262143, 12, 31), (262144, 1, 1), (999999999, 12, 31), (-5, 12, 31), (-262145, 1, 1)]
+
+
+def component_order_types(F, rep, rid):
+    """A temporal type may order its values by their components instead of through compare() (dates: year, month, day - the only order that also covers the years beyond the
+    calendar library's range).  Such a type is judged by folding: partial_cmp on every ordered pair of a table of concrete dates must answer Some(the lexicographic order of the
+    components), and equal / before / before_or_equal / after / after_or_equal / between must answer Some(the corresponding relation of that order) - in this operand order.
+    Returns the simple names of the types judged this way."""
+    out = set()
+    for ty in ("FeelDate",):
+        pc = [n for n in F.hir if re.match(r"^<dmntk_feel::temporal::((?:\w+::)*%s) as core::cmp::PartialOrd>::partial_cmp$" % ty, n)]
+        if len(pc) != 1:
+            continue
+        pc = pc[0]
+
+        def enc(d):
+            return ("tuple", [("lit", d[0]), ("lit", d[1]), ("lit", d[2])])
+
+        def sign(a, b):
+            return "Less" if a < b else "Greater" if a > b else "Equal"
+        ev0 = Evaluator(F, ints=True)
+        ok_pc = True
+        for a in DATES:
+            for b in DATES:
+                try:
+                    outs = ev0.run_fn(pc, [enc(a), enc(b)])
+                except Exception:
+                    outs = []
+                vals = {repr(v) for _, v in outs}
+                if vals != {repr(value("Some", value(sign(a, b))))}:
+                    ok_pc = False
+                    break
+            if not ok_pc:
+                break
+        if not ok_pc:
+            continue          # not of this form (or wrong): left to the compare()-based judgement, which reports it
+        out.add(ty)
+        rep.ok(rid, "trait:%s::partial_cmp" % ty, "orders by components: Some(lexicographic order of year, month, day) on %d pairs of dates, also beyond the calendar library's range" % (len(DATES) ** 2))
+        rel = {"lt": lambda a, b: a < b, "le": lambda a, b: a <= b, "gt": lambda a, b: a > b, "ge": lambda a, b: a >= b, "eq": lambda a, b: a == b, "ne": lambda a, b: a != b}
+
+        def hook(callee, args, st):
+            c = callee or ""
+            mm = re.search(r"(?:PartialOrd(?:<.*>)?>?|PartialEq(?:<.*>)?>?)::(lt|le|gt|ge|eq|ne)$", c)
+            if mm and len(args) == 2 and all(x[0] == "tuple" and len(x[1]) == 3 and all(q[0] == "lit" for q in x[1]) for x in args):
+                a, b = tuple(q[1] for q in args[0][1]), tuple(q[1] for q in args[1][1])
+                return mk_bool(rel[mm.group(1)](a, b))          # the operators of the type are its partial_cmp (judged above) and its field-wise eq
+            return None
+        spec = {"equal": rel["eq"], "before": rel["lt"], "before_or_equal": rel["le"], "after": rel["gt"], "after_or_equal": rel["ge"]}
+        for meth, f in sorted(spec.items()):
+            fn = [n for n in F.hir if re.match(r"^dmntk_feel::temporal::((?:\w+::)*%s)::%s$" % (ty, meth), n)]
+            key = "wrapper:%s::%s" % (ty, meth)
+            if len(fn) != 1:
+                rep.missing_anchor(rid, "%s::%s" % (ty, meth))
+                continue
+            bad = []
+            for a in DATES[:6]:
+                for b in DATES[:6]:
+                    ev = Evaluator(F, call_hook=hook, ints=True)
+                    try:
+                        outs = ev.run_fn(fn[0], [enc(a), enc(b)])
+                    except Exception as e:
+                        outs = [((), ("error", str(e)))]
+                    vals = {repr(v) for _, v in outs}
+                    if vals != {repr(value("Some", mk_bool(f(a, b))))}:
+                        bad.append("%s.%s(%s): %s" % (a, meth, b, sorted(vals)[0][:60]))
+            h = F.hir[fn[0]]
+            if bad:
+                rep.violation(rid, key, "%s::%s does not answer Some(the relation of the component order): %s" % (ty, meth, "; ".join(bad[:2])), "%s:%s" % (h["file"], h["line"]))
+            else:
+                rep.ok(rid, key, "Some(%s of the component order) on 36 pairs" % meth)
+        fn = [n for n in F.hir if re.match(r"^dmntk_feel::temporal::((?:\w+::)*%s)::between$" % ty, n)]
+        if len(fn) == 1:
+            bad = []
+            for lc in (True, False):
+                for rc in (True, False):
+                    for x in DATES[:4]:
+                        for lo in DATES[:4]:
+                            for hi in DATES[:4]:
+                                ev = Evaluator(F, call_hook=hook, ints=True)
+                                try:
+                                    outs = ev.run_fn(fn[0], [enc(x), enc(lo), enc(hi), mk_bool(lc), mk_bool(rc)])
+                                except Exception as e:
+                                    outs = [((), ("error", str(e)))]
+                                want = (lo <= x if lc else lo < x) and (x <= hi if rc else x < hi)
+                                vals = {repr(v) for _, v in outs}
+                                if vals != {repr(value("Some", mk_bool(want)))}:
+                                    bad.append("%s between %s%s..%s%s: %s" % (x, "[" if lc else "(", lo, hi, "]" if rc else ")", sorted(vals)[0][:50]))
+            h = F.hir[fn[0]]
+            if bad:
+                rep.violation(rid, "wrapper:%s::between" % ty, "%s::between does not answer Some(lo <(=) x and x <(=) hi): %s" % (ty, "; ".join(bad[:2])), "%s:%s" % (h["file"], h["line"]))
+            else:
+                rep.ok(rid, "wrapper:%s::between" % ty, "Some(lo <(=) x and x <(=) hi) on 256 combinations of dates and interval flags")
+    return out
